@@ -163,6 +163,16 @@ theorem runStep_local : ∀ st : Step, PLocal (runStep st)
     intro rest c s he
     unfold runStep
     exact readInt_then_local 4 (fun n rest s' he' => iter_local (runSteps_local body) (runSteps_adv body) n.toNat rest c s' he') rest s he
+  | .arrB elem body => by
+    intro rest c s he
+    unfold runStep
+    refine readInt_then_local 4 (fun n rest s' he' => ?_) rest s he
+    by_cases hc : n < 0 ∨ n > (s'.sz / elem : Nat)
+    · have hc' : n < 0 ∨ n > ((ext rest s').sz / elem : Nat) := hc
+      rw [if_pos hc', if_pos hc]
+    · have hc' : ¬ (n < 0 ∨ n > ((ext rest s').sz / elem : Nat)) := hc
+      rw [if_neg hc', if_neg hc]
+      exact iter_local (runSteps_local body) (runSteps_adv body) n.toNat rest c s' he'
   | .ifGe v body => by
     intro rest c s he
     unfold runStep
@@ -241,5 +251,81 @@ theorem opRead_local (o : OpSpec) (v : Nat) (topic : Bytes) (rest : Bytes) (s : 
             cases hq : discardN (↑s1.sz) s1 with
             | mk r2 s2 => cases r2 <;> rfl
       | _ => rfl
+
+/-! ### fetch: locality for every message-set reader that is itself local -/
+
+/-- the message-set reader looks at the bytes of its own frame only -/
+def Body.Local (b : Body) : Prop :=
+  (∀ rest s, Enough s → b.first (ext rest s) = ((b.first s).1, ext rest (b.first s).2)) ∧
+  (∀ rest s, Enough s → b.rest (ext rest s) = ((b.rest s).1, ext rest (b.rest s).2))
+
+theorem drainKafka_local (fixed : Bool) (k : Int) (rest : Bytes) (s : RS) (he : Enough s) :
+    drainKafka fixed k (ext rest s) = ((drainKafka fixed k s).1, ext rest (drainKafka fixed k s).2) := by
+  have hd := rlocal_discardN (↑s.sz) rest s he
+  unfold drainKafka
+  by_cases hc : (fixed && decide (s.sz > 0)) = true
+  · have hc' : (fixed && decide ((ext rest s).sz > 0)) = true := hc
+    rw [if_pos hc', if_pos hc]
+    have : ((ext rest s).sz : Int) = (s.sz : Int) := rfl
+    rw [this, hd]
+    cases hq : discardN (↑s.sz) s with
+    | mk r2 s2 => cases r2 <;> rfl
+  · have hc' : ¬ (fixed && decide ((ext rest s).sz > 0)) = true := hc
+    rw [if_neg hc', if_neg hc]
+
+/-- discard-the-rest, as used at the end of a batch -/
+theorem discardRest_local (rest : Bytes) (s : RS) (he : Enough s) :
+    discardN (↑(ext rest s).sz) (ext rest s) = ((discardN (↑s.sz) s).1, ext rest (discardN (↑s.sz) s).2) :=
+  rlocal_discardN (↑s.sz) rest s he
+
+theorem fetchRead_local (fixed : Bool) (v : Nat) (offset : Int) (b : Body) (hc : b.Conserves) (hl : b.Local)
+    (rest : Bytes) (s : RS) (he : Enough s) :
+    fetchRead fixed v offset b (ext rest s) = ((fetchRead fixed v offset b s).1, ext rest (fetchRead fixed v offset b s).2) := by
+  have h1 := runSteps_local (fetchHeader v) rest { ver := v } s he
+  have h2 := Adv_enough (runSteps_adv (fetchHeader v) { ver := v } s) he
+  unfold fetchRead
+  rw [h1]
+  cases hp : runSteps (fetchHeader v) { ver := v } s with
+  | mk r s1 =>
+    rw [hp] at h2
+    cases r with
+    | error e =>
+      cases e with
+      | kafka k => exact drainKafka_local fixed k rest s1 h2
+      | _ => rfl
+    | ok c =>
+      simp only []
+      by_cases hw : c.hwm = offset
+      · rw [if_pos hw, if_pos hw]; exact drainKafka_local fixed 7 rest s1 h2
+      · rw [if_neg hw, if_neg hw]
+        have hf := hl.1 rest s1 h2
+        have h3 := Adv_enough (hc.1 s1) h2
+        rw [hf]
+        cases hq : b.first s1 with
+        | mk r1 s2 =>
+          rw [hq] at h3
+          cases r1 with
+          | error e => cases e <;> rfl
+          | ok u =>
+            simp only []
+            have hr := hl.2 rest s2 h3
+            have h4 := Adv_enough (hc.2 s2) h3
+            rw [hr]
+            cases hq2 : b.rest s2 with
+            | mk e3 s3 =>
+              rw [hq2] at h4
+              have hd := discardRest_local rest s3 h4
+              cases e3 with
+              | shortRead =>
+                simp only []
+                rw [hd]
+                cases hq3 : discardN (↑s3.sz) s3 with
+                | mk r4 s4 => cases r4 <;> rfl
+              | kafka k =>
+                simp only []
+                rw [hd]
+                cases hq3 : discardN (↑s3.sz) s3 with
+                | mk r4 s4 => cases r4 <;> cases fixed <;> rfl
+              | _ => rfl
 
 end KV.ConnOps
